@@ -155,6 +155,42 @@ fn xmd_256_blocks_abort() {
     std::mem::forget(got);
 }
 
+/// the abort rule counts ROUNDED-UP blocks: with a 2-byte digest 510 bytes are 255 blocks (served), 511 bytes are 256 (abort)
+#[kani::proof]
+#[kani::unwind(300)]
+fn xmd_510_bytes_ok() {
+    let got = <ExpandMsgXmd<MockH> as ExpandMsg>::expand_message(&[1u8, 2], &[3u8], 510);
+    assert!(got.len() == 510);
+    std::mem::forget(got);
+}
+#[kani::proof]
+#[kani::unwind(300)]
+#[kani::should_panic]
+fn xmd_511_bytes_abort() {
+    let got = <ExpandMsgXmd<MockH> as ExpandMsg>::expand_message(&[1u8, 2], &[3u8], 511);
+    std::mem::forget(got);
+}
+
+/// the longest tag the property admits (255 bytes): used as is, with the one-byte length suffix 0xff.  First and last tag byte
+/// and the message byte are symbolic, the other tag bytes a fixed pattern.
+fn dst255(a: u8, z: u8) -> [u8; 255] {
+    let mut d = [0x5au8; 255];
+    d[0] = a;
+    d[254] = z;
+    d
+}
+#[kani::proof]
+#[kani::unwind(262)]
+fn xmd_dst255() {
+    let m: u8 = kani::any();
+    let d = dst255(5, 9);
+    let got = <ExpandMsgXmd<MockH> as ExpandMsg>::expand_message(&[m], &d[..], 2);
+    let mut exp = [0u8; 16];
+    spec_xmd(&[m], &d[..], 2, &mut exp);
+    assert!(got.len() == 2 && got[0] == exp[0] && got[1] == exp[1]);
+    std::mem::forget(got);
+}
+
 // ---------------------------------------------------------------- XOF
 #[derive(Clone, Default)]
 pub struct MockX {
@@ -232,6 +268,18 @@ xof_case!(xof_m3_d3_l7, 3, 3, 7);
 xof_case!(xof_m0_d0_l1, 0, 0, 1);
 xof_case!(xof_m5_d2_l0, 5, 2, 0);
 xof_case!(xof_m2_d8_l16, 2, 8, 16);
+
+#[kani::proof]
+#[kani::unwind(262)]
+fn xof_dst255() {
+    let m: u8 = kani::any();
+    let d = dst255(5, 9);
+    let got = <ExpandMsgXof<MockX> as ExpandMsg>::expand_message(&[m], &d[..], 3);
+    let mut exp = [0u8; 16];
+    spec_xof(&[m], &d[..], 3, &mut exp);
+    assert!(got.len() == 3 && got[0] == exp[0] && got[1] == exp[1] && got[2] == exp[2]);
+    std::mem::forget(got);
+}
 
 // ---------------------------------------------------------------- hash_to_field: one expander call with count * L, consecutive blocks
 pub static mut X_CALLS: u8 = 0;
